@@ -7,7 +7,8 @@
 (* EventuallyExact that TLC checks on DynListeners itself; every generated state must    *)
 (* be a settled state of the design (GenConsistent).                                     *)
 EXTENDS DynListeners_MC, Json, Sequences
-CONSTANT MaxSteps
+CONSTANTS MaxSteps,
+          Shape         \* <<>> = any history; otherwise the kinds of the macro steps, in order
 VARIABLE ghist
 
 GenInit == Init /\ ghist = <<>>
@@ -28,6 +29,7 @@ Settle(t, f) ==
 Rec(kind, t, p, ip, c, res) ==
     [kind |-> kind, tbl |-> t, p |-> p, ip |-> ip, c |-> c, res |-> res, exp |-> Expect(table', foreign', lsn')]
 Emit(r) == /\ Len(ghist) < MaxSteps /\ ghist' = Append(ghist, r)
+           /\ (Shape = <<>> \/ (Len(ghist) < Len(Shape) /\ r.kind = Shape[Len(ghist) + 1]))
            /\ (Len(ghist') = MaxSteps => PrintT(ToJson([steps |-> ghist'])))
 
 GTable(t) == /\ t # table /\ table' = t /\ foreign' = foreign /\ Settle(t, foreign)
